@@ -12,6 +12,7 @@ open Avt
 structure Inst where
   st : Vt                                   -- latest state reported by the implementation
   dead : Bool := false
+  diedOn : List Nat := []                   -- input of the call that panicked (when `dead`)
   drained : List Line := []                 -- everything handed out through Changes.scrollback so far
   sawRis : Bool := false
   sawResize : Bool := false
